@@ -496,6 +496,9 @@ func (r *Run) parkRW(g *G, m *RWMutex, write bool) {
 	}
 }
 
+// Held is for monitors: a writer or at least one reader holds it.
+func (m *RWMutex) Held() bool { return m.w || m.r > 0 }
+
 func (m *RWMutex) Lock()  { m.lock(true) }
 func (m *RWMutex) RLock() { m.lock(false) }
 func (m *RWMutex) Unlock() {
